@@ -1799,7 +1799,9 @@ namespace avel {
         auto quotient_even = _mm_cvttps_epi32(_mm_div_ps(x_even, y_even));
         auto quotient_odd  = _mm_cvttps_epi32(_mm_div_ps(x_odd,  y_odd ));
 
-        auto quotient = _mm_or_si128(quotient_even, _mm_slli_epi32(quotient_odd, 16));
+        // A zero divisor makes cvttps return 0x80000000: keep only the low half
+        // of the even quotients so that it cannot leak into the odd lane above
+        auto quotient = _mm_or_si128(_mm_and_si128(even_mask, quotient_even), _mm_slli_epi32(quotient_odd, 16));
 
         auto offset = _mm_mullo_epi16(decay(y), quotient);
         auto remainder = _mm_sub_epi16(decay(x), offset);
